@@ -12,7 +12,9 @@
      o_lam_str        "(args) => " ++ expr_to_source_with_scope(body, serialisable scope)
      o_powi o_fmt_prec o_fmt_exp14 o_parse_f64   the std functions under format_display_number
                       (DisplayNum.v of C20; its f64::log10 is the SAME field o_log10)
-     o_now            SystemTime::now().duration_since(UNIX_EPOCH): None = the clock is before 1970
+     o_now            seconds since the Unix epoch as f64, NEGATIVE while the clock is before 1970 (repo fix
+                      bf56486: `match ..duration_since(UNIX_EPOCH) { Ok(e) => e.as_secs_f64(), Err(b) =>
+                      -b.duration().as_secs_f64() }`; before it the field was an option and None panicked)
 
    builtin_all o = the new arms first, then EvalFull.builtin_full (unchanged).  Definitions only. *)
 From Coq Require Import String Ascii List ZArith Bool.
@@ -33,7 +35,7 @@ Record oracle : Type := {
   o_fmt_prec : num -> Z -> DisplayNum.text;
   o_fmt_exp14 : num -> DisplayNum.text;
   o_parse_f64 : DisplayNum.text -> option num;
-  o_now : option num
+  o_now : num
 }.
 
 (* ---------------------------------------------------------------- dyn-fmt 0.4.3
@@ -142,9 +144,9 @@ Section WithOracle.
   Definition bi_print (args : list value) : outcome value :=
     do _ <- print_line args; Ok VNull.
 
-  (* ---- time_now() (functions.rs:1295): duration_since(UNIX_EPOCH).unwrap() ---- *)
-  Definition bi_time_now (_ : list value) : outcome value :=
-    match o_now o with Some t => Ok (VNum t) | None => Panic end.
+  (* ---- time_now() (functions.rs:1295): total since repo fix bf56486 (the `.unwrap()` of
+          duration_since(UNIX_EPOCH) became a match; a clock before 1970 reads a negative number) ---- *)
+  Definition bi_time_now (_ : list value) : outcome value := Ok (VNum (o_now o)).
 
   Definition builtin_all (call : callback) (b : builtin)
     : list value -> store -> outcome value * store :=
@@ -204,5 +206,5 @@ Definition oracle_trivial : oracle := {|
   o_lam_str := fun _ _ _ => "<function>"%string;
   o_powi := DisplayNum.powi_exec; o_fmt_prec := DisplayNum.fmt_prec_exec; o_fmt_exp14 := DisplayNum.fmt_exp14_exec;
   o_parse_f64 := DisplayNum.parse_f64_exec;
-  o_now := Some (num_of_Z 1)
+  o_now := num_of_Z 1
 |}.
